@@ -2,7 +2,8 @@ CFG = {
     "modules": ["Parsley.Props.C01", "Parsley.Props.C04", "Parsley.Props.C12", "Parsley.Props.C06"],
     "shrink": True,
     "repo_bins": ["pdf_printer"],
-    "compare_words": 1,   # the statement-level model says only `terminates-normally`; completed/rejected is reported for the distribution
+    "compare_words": 1,   # `completed` | `rejected` | `abnormal`: the end-to-end model (Model/Pipeline.lean) must agree with the real binary's exit status
+    "rustgen": True,      # prefixes / mutations of the repository's sample PDFs as explicit `doc` lines (the Lean driver cannot read them)
     "theorems": ["Parsley.C01.pipeline_stages_never_panic_partial",
                  "Parsley.C16.parse_never_panics", "Parsley.C16.depth_restored", "Parsley.C05.indirect_never_panics",
                  "Parsley.C13.table_never_panics", "Parsley.C13.dictinfo_never_panics", "Parsley.C13.parseStream_never_panics",
